@@ -88,7 +88,9 @@ class Config:
     def describe(self):
         return dict(pt=self.pt, nparams=self.nparams, blobs=self.blobs, nchains=self.nchains, ntemps=self.ntemps,
                     swap_interval=self.si, betas=self.betas, proposals=self.prop_kind, box=self.box, seed=self.seed,
-                    annealer=getattr(self, 'annealer', False), reset_after_swap=getattr(self, 'ras', False))
+                    annealer=getattr(self, 'annealer', False), reset_after_swap=getattr(self, 'ras', False),
+                    public_reads_before_every_operation=(self.seed % 2 == 0),
+                    placeholder_start_before_a_resume_into_a_fresh_sampler=(self.seed % 3 == 0))
 
     def build(self, tracer, seed=None):
         if self.prop_kind == 'td':
@@ -285,6 +287,26 @@ def blist(xs):
     return '[' + '; '.join('true' if x else 'false' for x in xs) + ']'
 
 
+PEEKED = ('hasblobs', 'transdimensional', 'iteration', 'niterations', 'ntemps', 'betas', 'parameters', 'swap_interval',
+          'current_blob', 'current_position', 'current_stats', 'start_position', 'blob0', 'stats0')
+
+
+def peek(sampler):
+    """A driver may look at any public read-only attribute at any time, also before the start positions are set: in the
+    machine a read is no operation at all.  Reads that are not legal yet raise and are ignored."""
+    for ch in sampler.chains:
+        for obj in [ch] + list(getattr(ch, 'chains', [])):
+            for a in PEEKED:
+                try:
+                    getattr(obj, a)
+                except Exception:      # noqa
+                    pass
+            try:
+                len(obj)
+            except Exception:      # noqa
+                pass
+
+
 class CaseBuilder:
     """Executes an op schedule on a real sampler and emits one Coq case per chain."""
 
@@ -342,8 +364,21 @@ class CaseBuilder:
             saved = []
             raised = False
             self.final_sampler = sampler
+            def start_term(ci, levels):
+                ss = []
+                for lv in levels:
+                    recs = tracer.starts.get(id(lv), [])
+                    k = used_starts[ci].get(id(lv), 0)
+                    rec = recs[k]
+                    used_starts[ci][id(lv)] = k + 1
+                    ss.append('(%s, %s)' % (zlist([self.I(rec['position'][p]) for p in cfg.params]),
+                                            self.mout(rec['model'][0][2])))
+                return 'Start [%s]' % '; '.join(ss)
+
             for op in self.schedule:
                 kind = op[0]
+                if cfg.seed % 2 == 0:
+                    peek(sampler)
                 if self.probe is not None:
                     self.probe('before', op, sampler, tracer)
                 if kind == 'getstate':
@@ -367,6 +402,17 @@ class CaseBuilder:
                         sampler = cfg.build(tracer, seed=cfg.seed + 7919)
                         self.final_sampler = sampler
                         used_sweeps = [0] * nch
+                        if cfg.seed % 3 == 0:
+                            # 'build, set some start, resume if a checkpoint exists': the placeholder does not matter once a state
+                            # is loaded, whatever its dtype (integer zeros for the float parameters of a fixed-dimension model)
+                            if cfg.prop_kind == 'td':
+                                sampler.start_position = cfg.start(random.Random(cfg.seed + 1))
+                            else:
+                                shp = (cfg.ntemps, cfg.nchains) if cfg.pt else (cfg.nchains,)
+                                sampler.start_position = {p: numpy.zeros(shp, dtype=int) for p in cfg.params}
+                            # in the machine: a start on the fresh sampler, then the load
+                            for ci, ch in enumerate(sampler.chains):
+                                terms[ci].append((start_term(ci, ch.chains if cfg.pt else [ch]), obsr.chain(ch)))
                         sampler.set_state(copy.deepcopy(saved[op[1]]))
                     err = None
                 except Exception as e:      # noqa
@@ -374,15 +420,7 @@ class CaseBuilder:
                 for ci, ch in enumerate(sampler.chains):
                     levels = ch.chains if cfg.pt else [ch]
                     if kind == 'start':
-                        ss = []
-                        for lv in levels:
-                            recs = tracer.starts.get(id(lv), [])
-                            k = used_starts[ci].get(id(lv), 0)
-                            rec = recs[k]
-                            used_starts[ci][id(lv)] = k + 1
-                            ss.append('(%s, %s)' % (zlist([self.I(rec['position'][p]) for p in cfg.params]),
-                                                    self.mout(rec['model'][0][2])))
-                        term = 'Start [%s]' % '; '.join(ss)
+                        term = start_term(ci, levels)
                     elif kind == 'run':
                         steps = []
                         for j in range(op[1]):
